@@ -1,1 +1,5 @@
+-- GENERATED
+import Gotree.Model.C14
 import Gotree.Model.Core
+import Gotree.Model.Dump
+import Gotree.Spec.C14
